@@ -92,9 +92,9 @@ def module_state_sites(ctx):
         for d in node.decorator_list:
             dn = ast.unparse(d).split("(")[0].split(".")[-1]
             if dn in MEMO_DECORATORS:
-                out.append((f, d, f"memoising decorator @{ast.unparse(d)[:40]}"))
+                out.append((f, d, f"memoising decorator @{ast.unparse(d)[:40]}", None))
         for g in declared_global:
-            out.append((f, node, f"`global/nonlocal {g}`"))
+            out.append((f, node, f"`global/nonlocal {g}`", g))
         module_names = set(f.module.toplevel_names) if hasattr(f.module, "toplevel_names") else None
         for nd in ast.walk(node):
             tgt = None
@@ -105,9 +105,9 @@ def module_state_sites(ctx):
                     if isinstance(t, ast.Subscript):
                         tgt = t.value
                     elif isinstance(t, ast.Attribute) and isinstance(t.value, ast.Name) and t.value.id in repo.classes and t.value.id not in local:
-                        out.append((f, nd, f"class attribute `{ast.unparse(t)}` is assigned"))
+                        out.append((f, nd, f"class attribute `{ast.unparse(t)}` is assigned", None))
                     elif isinstance(t, ast.Attribute) and isinstance(t.value, ast.Call) and ast.unparse(t.value) in ("type(self)", "self.__class__"):
-                        out.append((f, nd, f"class attribute `{ast.unparse(t)}` is assigned"))
+                        out.append((f, nd, f"class attribute `{ast.unparse(t)}` is assigned", None))
             if tgt is None:
                 continue
             base = tgt
@@ -118,17 +118,17 @@ def module_state_sites(ctx):
                 if base.id in repo.classes or (module_names is None or base.id in module_names) or base.id in declared_global:
                     if base.id in repo.classes and isinstance(tgt, ast.Name):
                         continue
-                    out.append((f, nd, f"module- or class-level container `{ast.unparse(tgt)[:40]}` is mutated in place"))
+                    out.append((f, nd, f"module- or class-level container `{ast.unparse(tgt)[:40]}` is mutated in place", base.id))
         # mutable default argument that the body mutates
         for p, dv in f.defaults.items():
             if isinstance(dv, (ast.List, ast.Dict, ast.Set)) or (isinstance(dv, ast.Call) and isinstance(dv.func, ast.Name) and dv.func.id in ("list", "dict", "set")):
                 for nd in ast.walk(node):
                     if isinstance(nd, ast.Call) and isinstance(nd.func, ast.Attribute) and nd.func.attr in mutators and isinstance(nd.func.value, ast.Name) and nd.func.value.id == p:
-                        out.append((f, nd, f"mutable default argument `{p}` is mutated"))
+                        out.append((f, nd, f"mutable default argument `{p}` is mutated", None))
                     if isinstance(nd, (ast.Assign, ast.AugAssign)):
                         for t in (nd.targets if isinstance(nd, ast.Assign) else [nd.target]):
                             if isinstance(t, ast.Subscript) and isinstance(t.value, ast.Name) and t.value.id == p:
-                                out.append((f, nd, f"mutable default argument `{p}` is mutated"))
+                                out.append((f, nd, f"mutable default argument `{p}` is mutated", None))
     _CACHE[key] = out
     return out
 
@@ -208,7 +208,7 @@ def hidden_state_rule(ctx, rule_id, roots, what):
                         ctx.violation(f"stale-state:{owner}.{attr}@{g.qualname}", e.loc,
                                       f"{g.qualname} reads {owner}.{attr}, which a simulation writes ({w.func.qualname}, {w.loc}) and initialize(True, True) never resets: "
                                       f"after the first run (or after the model is edited) this code works from leftovers instead of the model")
-    for f, node, desc in module_state_sites(ctx):
+    for f, node, desc, _name in module_state_sites(ctx):
         if id(f.node) in ids:
             ctx.violation(f"state-outside-model:{f.qualname}", f.loc(node), f"{f.qualname}: {desc}: state kept outside the model objects survives initialize() and is shared between runs and between projects")
     ctx.end()
